@@ -121,7 +121,7 @@ PROPS = {
     "C18": {
         "statement": "add_panics_iff / add_ok / resolve_error_iff",
         "engines": [plan("malformed,funnel,plan,funnel", quick=400, **{"max-n": 40})],
-        "aspects": ["outcome"],
+        "aspects": ["outcome", "query"],
         "assumptions": ["panic payloads are compared as text (quoted name)"],
     },
     "C19": {
